@@ -94,9 +94,9 @@ Theorems == phase = 1 =>
   /\ (c.cls = "auth" => ~Accept(c.tx, c.h))
   /\ (c.cls \in {"honest", "unauth"} => Accept(c.tx, c.h))
   /\ Accept(c.base, IF c.mut = "other-height" THEN Other(c.h) ELSE c.h)      \* every base is honest at its own height
-  /\ (Accept(c.tx, c.h) => AcceptAsCoded(c.tx, c.h))                        \* the coded deviation only admits more
-(* the named deviation is reachable: the model knows a case the code admits and the property forbids *)
-ASSUME \E h \in Heights : LET u == Wrapped(BasePay("none", "call")) IN AcceptAsCoded(u, h) /\ ~Accept(u, h)
+(* an unprotected payload is never authentic, whatever chain id the wrapper declares *)
+ASSUME \A h \in Heights : \A ch \in {"pay", "low", "high", "zero"} :
+         ~Accept(SetWrap(Wrapped(BasePay("none", "call")), "ChainId", ch), h)
 
 Dump == phase = 1 => PrintT(<<"CASE", ToJson(c)>>)
 =============================================================================
